@@ -143,3 +143,27 @@ pub fn lib_keys(d: &BigUint, how: u64, p: &mut Prng) -> Option<(Sm2PublicKey, Sm
 pub fn provenance(how: u64) -> &'static str {
     ["key_from_constructor", "key_from_gen_keypair", "key_with_jacobian_public_point"][(how % 3) as usize]
 }
+
+/// Scalars with zero 64-bit limbs in every pattern (bit i of `mask` set = limb i forced to zero), the other limbs
+/// random; reduced into [1, order-1]. Word-skipping "optimisations" of multiplication/exponentiation loops fail on these.
+pub fn sparse_scalar(p: &mut Prng, mask: u64) -> BigUint {
+    let order = &r2::curve().n;
+    let mut l = p.limbs();
+    for i in 0..4 {
+        if mask >> i & 1 == 1 {
+            l[i] = 0;
+        } else if l[i] == 0 {
+            l[i] = 1;
+        }
+    }
+    let mut v = BigUint::from(0u32);
+    for i in (0..4).rev() {
+        v = (v << 64) + l[i];
+    }
+    let v = v % order;
+    if v == BigUint::from(0u32) {
+        BigUint::from(1u32) << 64
+    } else {
+        v
+    }
+}
